@@ -179,6 +179,14 @@ def jobs(tier):
                       'label': 'unbounded' if numeric else 'bounded', 'timeout': 900, 'replay': None,
                       'cbmc_flags': ['--unwind', str(cap + 2), '--unwinding-assertions'], 'tiers': ['quick', 'thorough'],
                       'shape': ('all bit patterns of all three widths; text loops bounded by the text width, unwinding assertions on (complete)' if numeric else 'data_size <= %d (BOUNDED stand-in), all byte contents' % ds) + '; capacity %d' % cap})
+    # thorough tier: the same composition lemmas at larger bounds (still BOUNDED stand-ins, reported separately)
+    for name, t, ds, cap in (('bufhex', 'CAT_VAR_BUF_HEX', 24, 56), ('string', 'CAT_VAR_BUF_STRING', 12, 32)):
+        J.append({'id': 'L2.roundtrip_%s.ds%d' % (name, ds), 'props': ['C07', 'C03'], 'harness': 'l2_roundtrip.c', 'dfcc': False,
+                  'function': 'format_*/parse_* (%s)' % name, 'replace': [], 'loop_contracts': False,
+                  'defines': ['RT_TYPE=' + t, 'RT_DS=%d' % ds, 'RT_CAP=%d' % cap], 'expect': [],
+                  'label': 'bounded', 'timeout': 3000, 'replay': None,
+                  'cbmc_flags': ['--unwind', str(cap + 2), '--unwinding-assertions'], 'tiers': ['thorough'],
+                  'shape': 'data_size <= %d (BOUNDED stand-in), all byte contents; capacity %d' % (ds, cap)})
     J.append({'id': 'L2.string_fills_data_size', 'props': ['C03', 'C07'], 'harness': 'l2_roundtrip.c', 'dfcc': False, 'function': 'format_buffer_string', 'replace': [], 'loop_contracts': False,
               'defines': ['RT_TYPE=CAT_VAR_BUF_STRING', 'RT_DS=4', 'RT_CAP=24', 'RT_UNTERMINATED'], 'expect': [], 'label': 'bounded', 'timeout': 900, 'replay': None,
               'cbmc_flags': ['--unwind', '26', '--unwinding-assertions'], 'tiers': ['quick', 'thorough'], 'shape': 'data_size <= 4 (BOUNDED stand-in), storage object of exactly data_size bytes, both machines; capacity 24'})
